@@ -106,7 +106,8 @@ class MermaidGantt:
 
         return Template(template).substitute(
             styles=self.__styles(),
-            src=self.__src()
+            # the browser decodes character references in the <div> before Mermaid reads its text
+            src=escape(self.__src())
         )
 
     def _repr_html_(self):
